@@ -6,7 +6,7 @@ CONSTANTS
   AllCompletions = FALSE
   FW = 8
   CheckRand = TRUE
-  RandWMax = 10
+  RandWMax = 9
   CheckUnif = TRUE
-  UnifNMax = 7
+  UnifNMax = 6
 INVARIANTS TypeOK
